@@ -695,15 +695,7 @@ class Engine:
                     break
             if w is None:
                 return None
-        # tighten with the path condition (binary search on the bound)
-        lo_w, hi_w = 1, w
-        while lo_w < hi_w:
-            mid = (lo_w + hi_w) // 2
-            if self.entails(zt(v) < (1 << mid)):
-                hi_w = mid
-            else:
-                lo_w = mid + 1
-        return hi_w
+        return w
 
     def bitop(self, op, a, b, t, node):
         if a.concrete and b.concrete:
